@@ -38,19 +38,30 @@ def load_gitignore(directory: Path) -> pathspec.PathSpec | None:
     return _read_ignore_file(gitignore)
 
 
-def load_tool_ignore(tool_name: str, start_dir: Path) -> pathspec.PathSpec | None:
+def find_tool_ignore(tool_name: str, start_dir: Path) -> tuple[Path, pathspec.PathSpec] | None:
     """
     Walk up from `start_dir` looking for `.{tool_name}ignore` (e.g., `.flowmarkignore`).
-    Returns compiled `PathSpec` from first found, or `None`.
+    Returns the directory of the first one found (the directory its patterns are
+    relative to) and its compiled `PathSpec`, or `None`.
     """
     ignore_name = f".{tool_name}ignore"
     current = start_dir.resolve()
     while True:
         candidate = current / ignore_name
         if candidate.is_file():
-            return _read_ignore_file(candidate)
+            spec = _read_ignore_file(candidate)
+            return (current, spec) if spec is not None else None
         parent = current.parent
         if parent == current:
             break
         current = parent
     return None
+
+
+def load_tool_ignore(tool_name: str, start_dir: Path) -> pathspec.PathSpec | None:
+    """
+    Walk up from `start_dir` looking for `.{tool_name}ignore` (e.g., `.flowmarkignore`).
+    Returns compiled `PathSpec` from first found, or `None`.
+    """
+    found = find_tool_ignore(tool_name, start_dir)
+    return found[1] if found is not None else None
